@@ -1,5 +1,6 @@
 import PbVerif.Model.JsonLex
 import PbVerif.Lemmas.JsonLexNumber
+import PbVerif.Lemmas.JsonLexString
 /-
 C21 — protojson speaks exactly JSON.
 
@@ -136,5 +137,49 @@ theorem parseNumberFixed_le (s : Bytes) (n : Nat) (h : parseNumberFixed s = some
     parseNumber s = some n := by
   obtain ⟨p, rest, rfl, rfl, hd, hp⟩ := (parseNumberFixed_exact s n).1 h
   exact parseNumber_complete p rest hp hd
+
+/-! ## Strings (decode_string.go : Decoder.parseString) -/
+
+/-- `parseString` accepts exactly: a quotation mark, a sequence `cs` of characters and escapes in
+which `\uXXXX` escapes of surrogates occur only as well-formed pairs (`DChars`: RFC 3629 UTF-8
+characters other than control characters, `"` and `\`; the eight one-letter escapes; `\uXXXX` with
+four hex digits), and a quotation mark; it returns what `cs` denotes and the length including both
+quotation marks.  In particular invalid UTF-8, raw control characters, unknown escapes, short or
+non-hexadecimal `\u` escapes and lone surrogates are rejected, whatever follows the literal. -/
+theorem parseString_exact (inp content : Bytes) (n : Nat) :
+    parseString inp = .ok (content, n) ↔
+      ∃ cs rest, inp = 0x22#8 :: (cs ++ 0x22#8 :: rest) ∧ n = cs.length + 2 ∧ DChars cs content :=
+  JsonLex.parseString_exact inp content n
+
+/-- Soundness: what `parseString` consumes is a string of the RFC 8259 grammar (over UTF-8). -/
+theorem parseString_sound (inp content : Bytes) (n : Nat) (h : parseString inp = .ok (content, n)) :
+    JString (inp.take n) := by
+  obtain ⟨cs, rest, rfl, rfl, hcs⟩ := (parseString_exact inp content n).1 h
+  have : (0x22#8 :: (cs ++ 0x22#8 :: rest)).take (cs.length + 2) = 0x22#8 :: (cs ++ [0x22#8]) := by
+    have : 0x22#8 :: (cs ++ 0x22#8 :: rest) = (0x22#8 :: (cs ++ [0x22#8])) ++ rest := by simp
+    rw [this]; exact List.take_left' (by simp)
+  rw [this]
+  exact JString.mk cs hcs.jchars
+
+/-- Completeness: every RFC 8259 string whose surrogate escapes form well-formed pairs (`JCharsWF`;
+the RFC grammar itself also admits lone surrogate escapes, which the code deliberately rejects) is
+accepted whole, whatever follows it. -/
+theorem parseString_complete (cs rest : Bytes) (h : JCharsWF cs) :
+    ∃ content, parseString (0x22#8 :: (cs ++ 0x22#8 :: rest)) = .ok (content, cs.length + 2) := by
+  obtain ⟨content, hc⟩ := h.dchars
+  exact ⟨content, (parseString_exact _ _ _).2 ⟨cs, rest, rfl, rfl, hc⟩⟩
+
+/-- … and exactly those: an accepted literal has well-formed surrogate escapes. -/
+theorem parseString_wf (inp content : Bytes) (n : Nat) (h : parseString inp = .ok (content, n)) :
+    ∃ cs rest, inp = 0x22#8 :: (cs ++ 0x22#8 :: rest) ∧ n = cs.length + 2 ∧ JCharsWF cs := by
+  obtain ⟨cs, rest, h1, h2, hcs⟩ := (parseString_exact inp content n).1 h
+  exact ⟨cs, rest, h1, h2, hcs.wf⟩
+
+/-- a lone surrogate escape is an RFC `char` but is rejected -/
+example : JString [0x22#8, 0x5c#8, 0x75#8, 0x64#8, 0x38#8, 0x30#8, 0x30#8, 0x22#8] ∧
+    parseString [0x22#8, 0x5c#8, 0x75#8, 0x64#8, 0x38#8, 0x30#8, 0x30#8, 0x22#8] = .error .eof := by
+  refine ⟨?_, by rfl⟩
+  exact JString.mk [0x5c#8, 0x75#8, 0x64#8, 0x38#8, 0x30#8, 0x30#8]
+    (JChars.single (JChar.hex _ _ _ _ (by decide) (by decide) (by decide) (by decide)))
 
 end C21
